@@ -129,7 +129,7 @@ def _subregions(region, ndim, typing, layout, styp):
             p1, p2 = [float(i // 2) for i in ilo], [float(i // 2) for i in ihi]
         else:
             p1, p2 = [i * 0.5 for i in ilo], [i * 0.5 for i in ihi]
-        out[["first", "second"][k]] = df.Region(p1=p1, p2=p2)
+        out[_SUBNAMES.split(",")[k]] = df.Region(p1=p1, p2=p2)
     return out
 
 
@@ -307,7 +307,7 @@ def _str_class(dims, units, lab):
 
 
 MESH_KEYS = ("ndim", "corners", "dims", "units", "tolerance", "bc")
-SUB_KEYS = ("ndim", "corners", "layout", "subcorners")
+SUB_KEYS = ("ndim", "corners", "layout", "subcorners", "subnames")
 
 
 def _mesh_choices(ctx, full):
@@ -321,12 +321,18 @@ def _mesh_choices(ctx, full):
         styp = ctx.choose("subcorners", ["frac"])
     else:
         styp = ctx.choose("subcorners", ["frac", "int", "intfloat"])
+    # insertion order of the subregion names: alphabetical or not (the file stores names and corners separately)
+    global _SUBNAMES
+    _SUBNAMES = ctx.choose("subnames", ["first,second", "zeta,alpha"] if len(LAYOUTS[layout][0]) == 2 else ["first,second"])
     dims = ctx.choose("dims", ["default", "nonascii", "ndarray"] if (q and full) else list(DIMS))
     units = ctx.choose("units", ["m", "distinct", "ndarray"] if (q and full) else list(UNITS))
     tol = ctx.choose("tolerance", [1e-12, 1e-9])
     bcdom = _bc_domain(dims, ndim)
     bc = ctx.choose("bc", [b for b in bcdom if not (q and full and b == "dirichlet")])
     return ndim, typing, layout, styp, dims, units, tol, bc
+
+
+_SUBNAMES = "first,second"
 
 
 def _make_mesh(ctx, ndim, typing, layout, styp, dims, units, tol, bc):
@@ -497,6 +503,13 @@ def unit_provenance(ctx):
         _roundtrip(ctx, f, d, K, cls)
 
 
+def unit_histories(ctx):
+    """all write/read/mutate sequences on a two-path file store (mc/filehist.py): state leaking between calls"""
+    from mc import filehist
+
+    filehist.unit_store_histories(ctx, "h5", "hdf5")
+
+
 def units(tier):
     return [
         {"name": "mesh", "fn": unit_mesh, "bound": None},
@@ -504,4 +517,5 @@ def units(tier):
         {"name": "cross", "fn": unit_cross, "bound": 2},
         {"name": "legacy", "fn": unit_legacy, "bound": None},
         {"name": "provenance", "fn": unit_provenance, "bound": None},
+        {"name": "histories", "fn": unit_histories, "bound": None},
     ]
